@@ -98,11 +98,30 @@ def card_C4(rs):
     return {"decay": decay, "particle": particle, "data": {"dat_order": ["B", "C", "D", "E"]}}
 
 
-CARDS = {"S3": card_S3, "V3": card_V3, "H3": card_H3, "C4": card_C4}
+def card_C4s(rs):
+    """four-body: two R1 states recoiling against the SAME R2 -> D E decay (one Decay object shared by two
+    chains) whose spin-1 daughter gives it two (l,s) couplings"""
+    decay = {"A": [["R1a", "R2"], ["R1b", "R2"]], "R1a": ["B", "C"], "R1b": ["B", "C"], "R2": ["D", "E"]}
+    particle = {
+        "$top": {"A": {"J": 1, "P": -1, "mass": 5.0}},
+        "$finals": {
+            "B": {"J": 0, "P": -1, "mass": 0.2},
+            "C": {"J": 0, "P": -1, "mass": 0.3},
+            "D": {"J": 1, "P": -1, "mass": 0.4},
+            "E": {"J": 0, "P": -1, "mass": 0.5},
+        },
+        "R1a": {"J": 1, "P": -1, "mass": round(rs.uniform(1.3, 1.7), 3), "width": 0.3},
+        "R1b": {"J": 1, "P": -1, "mass": round(rs.uniform(1.9, 2.3), 3), "width": 0.4},
+        "R2": {"J": 1, "P": 1, "mass": round(rs.uniform(1.5, 2.0), 3), "width": 0.3},
+    }
+    return {"decay": decay, "particle": particle, "data": {"dat_order": ["B", "C", "D", "E"]}}
+
+
+CARDS = {"S3": card_S3, "V3": card_V3, "H3": card_H3, "C4": card_C4, "C4s": card_C4s}
 
 
 def make_card(rs, kind=None, **kw):
-    kind = kind or rs.weighted([("S3", 5), ("V3", 2), ("H3", 1), ("C4", 1)])
+    kind = kind or rs.weighted([("S3", 5), ("V3", 2), ("H3", 1), ("C4", 1), ("C4s", 1)])
     c = CARDS[kind](rs, **kw)
     c["_kind"] = kind
     return c
@@ -158,3 +177,56 @@ def randomize_params(amp, rs, scale=1.0, p_neg=0.0):
             vals[name] = -abs(vals[name])  # a negative magnitude is a legal point (phase shifted by pi)
     amp.set_params(vals)
     return vals
+
+
+# ---------------------------------------------------------------- models built through the particle/decay API
+
+
+def api_spec(rs):
+    """a J=1 three-body decay group built with get_particle/get_decay; two B C resonances that either carry
+    the documented name:id form of ONE base name or two distinct names"""
+    ids = rs.chance(0.6)
+    return {
+        "names": ["R_BC:1", "R_BC:2"] if ids else ["R_BC", "R_BC2"],
+        "m": [round(rs.uniform(2.2, 2.4), 3), round(rs.uniform(2.4, 2.6), 3), round(rs.uniform(2.2, 2.5), 3), round(rs.uniform(4.1, 4.3), 3)],
+        "g": [0.1, 0.15, 0.1, 0.2],
+    }
+
+
+class ApiModel:
+    """duck-types the little of ConfigLoader the sessions use: get_amplitude(), phase space, cal_angle"""
+
+    def __init__(self, spec):
+        from tf_pwa.amp import AmplitudeModel, DecayGroup, get_decay, get_particle
+        from tf_pwa.variable import VarsManager
+
+        from sim.seams import rng_seam
+
+        a = get_particle("A", J=1, P=-1, mass=4.6, spins=(-1, 1))
+        b = get_particle("B", J=1, P=-1, mass=2.0)
+        c = get_particle("C", J=0, P=-1, mass=0.14)
+        d = get_particle("D", J=1, P=-1, mass=2.0)
+        r1 = get_particle(spec["names"][0], J=1, P=1, mass=spec["m"][0], width=spec["g"][0])
+        r2 = get_particle(spec["names"][1], J=1, P=1, mass=spec["m"][1], width=spec["g"][1])
+        r3 = get_particle("R_CD", J=1, P=1, mass=spec["m"][2], width=spec["g"][2])
+        r4 = get_particle("R_BD", J=1, P=-1, mass=spec["m"][3], width=spec["g"][3])
+        for r, (x, y), z in [(r1, (b, c), d), (r2, (b, c), d), (r3, (c, d), b), (r4, (b, d), c)]:
+            get_decay(a, [r, z])
+            get_decay(r, [x, y])
+        self.finals = [b, c, d]
+        self.dg = DecayGroup(a.chain_decay())
+        with rng_seam(777):
+            self.amp = AmplitudeModel(self.dg, vm=VarsManager(dtype="float64"))
+
+    def get_amplitude(self):
+        return self.amp
+
+    def phsp(self, n, seed):
+        from tf_pwa.cal_angle import cal_angle_from_momentum
+        from tf_pwa.phasespace import PhaseSpaceGenerator
+
+        from sim.seams import rng_seam
+
+        with rng_seam(seed):
+            p4 = PhaseSpaceGenerator(4.6, [2.0, 0.14, 2.0]).generate(n)
+        return cal_angle_from_momentum(dict(zip(self.finals, p4)), self.dg)
